@@ -232,6 +232,10 @@ class Statement(object):
                 raw_post_byte |= self.code_pkg.post_byte_choices[1]
                 self.code_pkg.post_byte = NumericValue(raw_post_byte)
         else:
+            # A backward offset is counted from the end of this instruction, so it also
+            # spans this instruction's opcode and post byte (the offset byte is in the +2)
+            min_size += self.code_pkg.size - 1
+            max_size += self.code_pkg.size - 1
             if min_size <= 128 and max_size <= 128:
                 self.code_pkg.size += 1
                 self.code_pkg.max_size = self.code_pkg.size
@@ -246,6 +250,18 @@ class Statement(object):
                 self.fixed_size = True
                 raw_post_byte |= self.code_pkg.post_byte_choices[1]
                 self.code_pkg.post_byte = NumericValue(raw_post_byte)
+
+    def force_pcr_16_bit(self):
+        """
+        Settles a program counter relative statement on the 16-bit offset form, which
+        can hold any offset.
+        """
+        self.code_pkg.size += 2
+        self.code_pkg.max_size = self.code_pkg.size
+        self.pcr_size_hint = 4
+        self.fixed_size = True
+        raw_post_byte = self.code_pkg.post_byte.int | self.code_pkg.post_byte_choices[1]
+        self.code_pkg.post_byte = NumericValue(raw_post_byte)
 
     def fix_addresses(self, statements, this_index):
         """
